@@ -98,11 +98,13 @@ func progArith(r *h.Rng) prog {
 	a := &asm{}
 	n := 2 + r.Intn(6)
 	for i := 0; i < n; i++ {
-		switch r.Intn(5) {
+		switch r.Intn(6) {
 		case 0:
 			a.loadImm(byte(r.Intn(13)), randVal(r), r.Intn(5))
 		case 1:
 			a.loadImm64(byte(r.Intn(13)), randVal(r))
+		case 5: // two registers: move_reg, sbrk (the inner heap is empty: always 0), bit counts, extensions
+			a.Ins(byte(100+r.Intn(12)), byte(r.Intn(13))|byte(r.Intn(13))<<4)
 		case 2, 3:
 			a.alu3(aluOps3[r.Intn(len(aluOps3))], byte(r.Intn(13)), byte(r.Intn(13)), byte(r.Intn(13)))
 		default:
@@ -375,6 +377,11 @@ func (g *gstate) opMachine() {
 	}
 	g.emit("m,%d,%d,%d", at, pz, entry)
 	g.st.Inc("op-machine")
+	if len(p.blob) > 0 && r.Chance(1, 4) {
+		// the guest reuses the buffer: the machine must keep its own copy of the program
+		g.emit("w,%d,%s", at, h.Hex(r.Bytes(len(p.blob))))
+		g.st.Inc("blob-overwritten-after-machine")
+	}
 	if !strings.HasPrefix(p.kind, "bad") && pz == uint64(len(p.blob)) && at >= 16*pg && at+pz <= 18*pg {
 		g.live = append(g.live, g.minFree())
 	}
@@ -573,9 +580,9 @@ func genHistory(r *h.Rng, st h.Stats) string {
 
 func gen(r *h.Rng, tier string, emit func(string)) {
 	st := h.Stats{}
-	n := 12000
+	n := 6000
 	if tier == "thorough" {
-		n = 250000
+		n = 100000
 	}
 	for i := 0; i < n; i++ {
 		emit(genHistory(r.Fork(), st))
